@@ -24,7 +24,7 @@ import (
 // byte level against the plain Marshal output (the formatter for the indent relation is
 // encoding/json.Indent, so C18's defects do not confound).
 
-var c13Indents = [][2]string{{"", " "}, {"", "\t"}, {" ", "  "}, {"→", "→ "}, {"", ""}}
+var c13Indents = [][2]string{{"", " "}, {"", "\t"}, {" ", "  "}, {"→", "→ "}, {"", ""}, {">", ""}, {"\t", ""}}
 
 func markerScheme() (*gojson.ColorScheme, []string) {
 	mk := func(tag string) gojson.ColorFormat {
@@ -244,6 +244,26 @@ func c13Relations() []c13Rel {
 			var sink bytes.Buffer
 			got, err := gojson.MarshalWithOption(x, gojson.Debug(), gojson.DebugWith(&sink))
 			return got, plain, err, false
+		}, false},
+		// the Encoder's own indentation switch: off only for SetIndent("", ""), whatever was set before
+		{"Encoder(SetIndent(p,i))=Indent(Marshal,p,i)+LF", func(x any, plain []byte, k int) ([]byte, []byte, error, bool) {
+			pi := c13Indents[k%len(c13Indents)]
+			prev := c13Indents[(k/len(c13Indents))%len(c13Indents)]
+			var want bytes.Buffer
+			if pi[0] == "" && pi[1] == "" {
+				want.Write(plain)
+			} else if e := stdjson.Indent(&want, plain, pi[0], pi[1]); e != nil {
+				return nil, nil, nil, true
+			}
+			want.WriteByte('\n')
+			var b bytes.Buffer
+			enc := gojson.NewEncoder(&b)
+			if k%2 == 1 {
+				enc.SetIndent(prev[0], prev[1])
+			}
+			enc.SetIndent(pi[0], pi[1])
+			err := enc.Encode(x)
+			return b.Bytes(), want.Bytes(), err, false
 		}, false},
 		// UnorderedMap may only permute members, under indentation too: whole lines move, so the bags
 		// of lines (a line's trailing comma depends on its place) must be equal
